@@ -213,6 +213,21 @@ func witnessArray(id int) *absprog.Prog {
 	}}
 }
 
+// witnessForeign: a struct with a union field next to fields typed by other packages (sub-package,
+// standard library): the JSON wrapper gounions writes for it repeats those field types.
+func witnessForeign(id int) *absprog.Prog {
+	st := absprog.Basic("string")
+	return &absprog.Prog{ID: id, Decls: []absprog.Decl{
+		{K: "named", Name: "Code", Pkg: "sub", Under: &st},
+		{K: "struct", Name: "Point", Pkg: "sub", Fields: []absprog.Field{{Name: "X", Type: absprog.Basic("int")}}},
+		{K: "iface", Name: "Shape", IMethods: []string{"isShape"}},
+		{K: "struct", Name: "Circle", Fields: []absprog.Field{{Name: "R", Type: absprog.Basic("int")}}, Methods: []absprog.Method{{Name: "isShape"}}},
+		{K: "struct", Name: "Mixed", Fields: []absprog.Field{{Name: "S", Type: absprog.Ref("", "Shape")}, {Name: "C", Type: absprog.Ref("sub", "Code")},
+			{Name: "Ps", Type: absprog.Slice(absprog.Ref("sub", "Point"))}, {Name: "N", Type: absprog.Ref("database/sql", "NullString")},
+			{Name: "D", Type: absprog.Ref("time", "Duration")}, {Name: "M", Type: absprog.Map(absprog.Basic("string"), absprog.Ref("sub", "Point"))}}},
+	}}
+}
+
 func Run(c *core.Ctx, replay string) (*core.Result, error) {
 	res := &core.Result{Level: "model_checking"}
 	res.Assumptions = []string{
@@ -263,6 +278,8 @@ func Run(c *core.Ctx, replay string) (*core.Result, error) {
 		addProg(witnessClash(pid), "witness: unions Shape / Shade sharing a member", clashKey)
 		pid++
 		addProg(witnessArray(pid), "witness: named fixed array of a union", arrayKey)
+		pid++
+		addProg(witnessForeign(pid), "struct with a union field and fields typed by other packages", "")
 		// SQL model files
 		u, err := c08.LoadUniverse(c, res)
 		if err != nil {
